@@ -169,9 +169,9 @@ theorem ge_seed (p x : Inst) (hp : WfInst p) (hy1 : 1901 ≤ p.y) (hy2 : p.y ≤
 
 /-- the seconds the minutely and hourly fillers enumerate -/
 theorem enum_S (r : Rule) (p : Inst) (hr : WfRule r) (hp : WfInst p) :
-    (makeEnum p r).S = if r.S = [] then [(seedT p).S] else r.S := by
+    (subEnum p r).S = if r.S = [] then [(seedT p).S] else r.S := by
   have hs := wf_S_lt p hp
-  show (if r.S.isEmpty then [p.S % 256] else r.S.map (· % 256)) = _
+  rw [(subEnum_eq r p).2]
   by_cases h : r.S = []
   · rw [if_pos h, h, (seedT_MS p hp).2]
     have : p.S % 256 = p.S := Nat.mod_eq_of_lt (by omega)
@@ -183,7 +183,7 @@ theorem enum_S (r : Rule) (p : Inst) (hr : WfRule r) (hp : WfInst p) :
     exact map_mod_id r.S hr.secs.2
 
 theorem secExp_iff (r : Rule) (p : Inst) (hr : WfRule r) (hp : WfInst p) (x : Inst) :
-    secExp r (seedT p) x ↔ x.S ∈ (makeEnum p r).S := by
+    secExp r (seedT p) x ↔ x.S ∈ (subEnum p r).S := by
   rw [enum_S r p hr hp]
   unfold secExp
   by_cases h : r.S = []
